@@ -396,6 +396,15 @@ var Customs = map[string]CustomFn{
 		return 10*x + y, nil
 	},
 	"boom": func(a []interface{}) (interface{}, error) { return nil, ErrOp },
+	"ri": func(a []interface{}) (interface{}, error) { // hands back a plain Go int (not one of the engine's own types)
+		if len(a) != 1 {
+			return nil, ErrBuiltin
+		}
+		if x, ok := a[0].(int64); ok {
+			return int(x) * 2, nil
+		}
+		return a[0], nil
+	},
 	"bv": func(a []interface{}) (interface{}, error) { // fails AND hands back a value (a partial result)
 		if len(a) != 1 {
 			return nil, ErrBuiltin
